@@ -378,11 +378,21 @@ func (c *caseB) finish(id int, out *strings.Builder) {
 	if c.cr {
 		c.tag("crvalue")
 	}
+	// a written line of 64 KiB or more: beyond the reader's (bufio.Scanner) limit, class N1L
+	long := false
+	for _, l := range bytes.Split(impl, []byte("\n")) {
+		if len(l) >= 65536 {
+			long = true
+		}
+	}
+	if long {
+		c.tag("line64k")
+	}
 	if !c.wf {
 		c.tag("nonwf")
 	}
-	fmt.Fprintf(out, "case %d kind=%s wf=%d cr=%d h=%s fmt=%s wbytes=%s nums=%s tidy=%s uni=%s tag=%s\n",
-		id, c.kind, b2i(c.wf), b2i(c.cr), h, fmtTbl, hx.Hex(impl), tbl(t.nums), tbl(t.tidy), tbl(t.uni), tagStr(c.tags))
+	fmt.Fprintf(out, "case %d kind=%s wf=%d cr=%d long=%d h=%s fmt=%s wbytes=%s nums=%s tidy=%s uni=%s tag=%s\n",
+		id, c.kind, b2i(c.wf), b2i(c.cr), b2i(long), h, fmtTbl, hx.Hex(impl), tbl(t.nums), tbl(t.tidy), tbl(t.uni), tagStr(c.tags))
 	fmt.Fprintf(out, "obs %d fmt=%s\n", id, fmtTbl)
 	fmt.Fprintf(out, "obs %d bytes=%s\n", id, hx.Hex(impl))
 
@@ -392,7 +402,7 @@ func (c *caseB) finish(id int, out *strings.Builder) {
 			want = append(want, s.obs)
 		}
 	}
-	if c.wf && !c.cr {
+	if c.wf && !c.cr && !long {
 		fmt.Fprintf(out, "obs %d ir=%s\n", id, joinOr(",", want))
 		mb, bad := mw.modelBytes(id, h, fmtTbl)
 		if bad != "" {
